@@ -2,4 +2,6 @@ import IsoDT.Basic
 import IsoDT.Gen.Calendar
 import IsoDT.Spec.Calendar
 import IsoDT.Model.Calendar
+import IsoDT.Model.TimePoint
+import IsoDT.Props.C01
 import IsoDT.Props.C03
